@@ -157,6 +157,19 @@ def make_input(rng: random.Random, n_refs: int = 2, n_qry: int = 8, ref_labels=(
             coords, truth = gen.cut_query(rng, xs, w0, w0 + w, sigma=rng.choice([0, 150]), offset=0)
             coords = gen.mirror_query(coords)
             mirrored = True
+        elif kind == "endstub":
+            # only the last four labels of the molecule match the reference (a stub of 20-60 kb); the rest are a few
+            # unrelated, widely spaced labels: the first-pass alignment sits at the very end of the molecule and the
+            # "unaligned fragment" handed to the second pass is the whole molecule again
+            cand = [i for i in range(4, n - 8) if 20000 <= xs[i + 3] - xs[i] <= 60000]
+            i0 = rng.choice(cand) if cand else rng.randint(4, n - 8)
+            stub = [xs[i] - xs[i0] for i in range(i0, i0 + 4)]
+            x = 0
+            head = []
+            for _ in range(rng.randint(2, 4)):
+                head.append(x)
+                x += rng.randint(25000, 45000)
+            coords = head + [x + v for v in stub]
         elif kind == "junk":
             x = 0
             coords = []
